@@ -117,6 +117,7 @@ PROPS = {
         units=['path:item::Item::*', 'path:item::PushType::*', 'nameglob:CODE.*', 'path:stack::PushStack::*'],
         label_re=r'^C(08|04|05|06|07|10|12)',
         all_labels_in_scope=True,
+        thorough=True,
         explanation='Item::size == points, Item::traverse == nth_point (depth first, top first), Item::equals == deep_eq, Item::contains == first_pos (with the lemma: the point at first_pos is deep-equal to the pattern, '
                     'i.e. POSITION returns an index at which EXTRACT returns the searched item), CODE.SIZE/EXTRACT/POSITION/LENGTH/NULL/ATOM/CAR/CDR/CONS/LIST/FROM* rows',
         not_decided=['CODE.INSERT / Item::insert: only panic-freedom, termination and "an out-of-range index changes no size" are proved; the replaced position (replace_idx = depth-1) is wrong after a nested list '
